@@ -719,6 +719,35 @@ Lemma ev1_nested st n limit body xs :
   ev1 st (ONested n limit body) xs = [(0, seq_loop (Z.to_nat (Z.max n 1)) 0 n limit 0 body xs)].
 Proof. rewrite <- nested_loop_eq. reflexivity. Qed.
 
+(** the same for [ONestedO]: the body reads the enclosing state [outer] in every round *)
+Fixpoint seq_loopO (fuel : nat) (k n limit outer st : Z) (body : list op1) (xs : list P) : Z :=
+  match fuel with
+  | O => st
+  | S f =>
+      let st1 := st + zsum (map snd (ev_ops outer body xs)) in
+      if (st1 <? limit) && (k + 1 <? n) then seq_loopO f (k + 1) n limit outer st1 body xs else st1
+  end.
+
+Lemma nestedO_loop_eq n limit outer body xs : forall fuel k st,
+  (fix loop (fuel : nat) (k st : Z) {struct fuel} : Z :=
+     match fuel with
+     | O => st
+     | S f =>
+         let st1 := st + zsum (map snd
+           ((fix evs (st : Z) (os : list op1) (acc : list P) {struct os} : list P :=
+               match os with [] => acc | o' :: os' => evs st os' (ev1 st o' acc) end) outer body xs)) in
+         if (st1 <? limit) && (k + 1 <? n) then loop f (k + 1) st1 else st1
+     end) fuel k st
+  = seq_loopO fuel k n limit outer st body xs.
+Proof.
+  induction fuel as [|f IH]; intros k st; [reflexivity|].
+  cbn [seq_loopO]. rewrite <- IH. rewrite <- evs_eq. reflexivity.
+Qed.
+
+Lemma ev1_nestedO st n limit body xs :
+  ev1 st (ONestedO n limit body) xs = [(0, seq_loopO (Z.to_nat (Z.max n 1)) 0 n limit st 0 body xs)].
+Proof. rewrite <- nestedO_loop_eq. reflexivity. Qed.
+
 Lemma ev_replay_eq body xs n limit : forall fuel k st,
   ev_replay fuel k n limit st body xs = seq_loop fuel k n limit st body xs.
 Proof.
@@ -730,14 +759,17 @@ Qed.
 
 Section op1_ind'.
   Variable Q : op1 -> Prop.
-  Definition is_nested (o : op1) : bool := match o with ONested _ _ _ => true | _ => false end.
+  Definition is_nested (o : op1) : bool :=
+    match o with ONested _ _ _ | ONestedO _ _ _ => true | _ => false end.
   Hypothesis Hbase : forall o, is_nested o = false -> Q o.
   Hypothesis Hnested : forall n limit body, Forall Q body -> Q (ONested n limit body).
+  Hypothesis HnestedO : forall n limit body, Forall Q body -> Q (ONestedO n limit body).
 
   Lemma op1_ind' : forall o, Q o.
   Proof.
     fix IH 1. intros o. destruct o; try (apply Hbase; reflexivity).
-    apply Hnested. induction body as [|o body IHb]; constructor; [apply IH | exact IHb].
+    - apply Hnested. induction body as [|o body IHb]; constructor; [apply IH | exact IHb].
+    - apply HnestedO. induction body as [|o body IHb]; constructor; [apply IH | exact IHb].
   Qed.
 End op1_ind'.
 
@@ -763,6 +795,14 @@ Proof.
   cbn [seq_loop]. rewrite (zsum_snd_perm _ _ (H st)), IH. reflexivity.
 Qed.
 
+Lemma seq_loopO_perm body n limit outer xs ys :
+  Permutation (ev_ops outer body xs) (ev_ops outer body ys) ->
+  forall fuel k st, seq_loopO fuel k n limit outer st body xs = seq_loopO fuel k n limit outer st body ys.
+Proof.
+  intros H. induction fuel as [|f IH]; intros k st; [reflexivity|].
+  cbn [seq_loopO]. rewrite (zsum_snd_perm _ _ H), IH. reflexivity.
+Qed.
+
 Lemma ev1_foldsum st xs : ev1 st OFoldSum xs = foldsum xs.
 Proof. reflexivity. Qed.
 Lemma ev1_reducemax st xs : ev1 st OReduceMax xs = reducemax xs.
@@ -786,6 +826,9 @@ Proof.
   - intros st xs ys Hp. rewrite !ev1_nested.
     rewrite (seq_loop_perm body n limit xs ys); [reflexivity|].
     intros st'. apply ev_ops_perm_Forall; assumption.
+  - intros st xs ys Hp. rewrite !ev1_nestedO.
+    rewrite (seq_loopO_perm body n limit st xs ys); [reflexivity|].
+    apply ev_ops_perm_Forall; assumption.
 Qed.
 
 Lemma ev_ops_perm os st xs ys :
@@ -801,8 +844,9 @@ Proof. unfold ev_ops. apply fold_left_app. Qed.
 
 Scheme dstep_mind := Minimality for dstep Sort Prop
   with dsteps_mind := Minimality for dsteps Sort Prop
-  with dloop_mind := Minimality for dloop Sort Prop.
-Combined Scheme dstep_dsteps_dloop_mind from dstep_mind, dsteps_mind, dloop_mind.
+  with dloop_mind := Minimality for dloop Sort Prop
+  with dloopO_mind := Minimality for dloopO Sort Prop.
+Combined Scheme dstep_dsteps_dloop_mind from dstep_mind, dsteps_mind, dloop_mind, dloopO_mind.
 
 Lemma keyed_agg_spec o f :
   keyed_agg o = Some f -> perm_inv f /\ forall st xs, ev1 st o xs = per_key f xs.
@@ -819,7 +863,9 @@ Lemma dstep_dsteps_dloop_sound :
   (forall st o d d', dstep st o d d' -> Permutation (flat d') (ev1 st o (flat d))) /\
   (forall st os d d', dsteps st os d d' -> Permutation (flat d') (ev_ops st os (flat d))) /\
   (forall n limit body d fuel k st res, dloop n limit body d fuel k st res ->
-     forall xs, Permutation (flat d) xs -> res = seq_loop fuel k n limit st body xs).
+     forall xs, Permutation (flat d) xs -> res = seq_loop fuel k n limit st body xs) /\
+  (forall outer n limit body d fuel k st res, dloopO outer n limit body d fuel k st res ->
+     forall xs, Permutation (flat d) xs -> res = seq_loopO fuel k n limit outer st body xs).
 Proof.
   apply dstep_dsteps_dloop_mind.
   - (* ds_local *) intros st o d H. rewrite local_flat by exact H. reflexivity.
@@ -854,6 +900,9 @@ Proof.
   - (* ds_nested *) intros st n limit body d d0 res Hex _ IH.
     rewrite ev1_nested, flat_single.
     rewrite (IH (flat d)); [reflexivity | symmetry; exact Hex].
+  - (* ds_nestedO *) intros st n limit body d d0 res Hex _ IH.
+    rewrite ev1_nestedO, flat_single.
+    rewrite (IH (flat d)); [reflexivity | symmetry; exact Hex].
   - (* dss_nil *) intros st d. reflexivity.
   - (* dss_cons *) intros st o os d d1 d2 _ IH1 _ IH2.
     rewrite ev_ops_cons. rewrite IH2. apply ev_ops_perm. exact IH1.
@@ -866,6 +915,15 @@ Proof.
     assert (E : zsum (map snd (flat d')) = zsum (map snd (ev_ops st body xs))).
     { apply zsum_snd_perm. rewrite IHs. apply ev_ops_perm. exact Hp. }
     cbn [seq_loop]. rewrite <- E, Hc. reflexivity.
+  - (* dlo_stop *) intros outer n limit body d k st xs _. reflexivity.
+  - (* dlo_continue *) intros outer n limit body d fuel k st d' res _ IHs Hc _ IHl xs Hp.
+    assert (E : zsum (map snd (flat d')) = zsum (map snd (ev_ops outer body xs))).
+    { apply zsum_snd_perm. rewrite IHs. apply ev_ops_perm. exact Hp. }
+    cbn [seq_loopO]. rewrite <- E, Hc. apply IHl. exact Hp.
+  - (* dlo_last *) intros outer n limit body d fuel k st d' _ IHs Hc xs Hp.
+    assert (E : zsum (map snd (flat d')) = zsum (map snd (ev_ops outer body xs))).
+    { apply zsum_snd_perm. rewrite IHs. apply ev_ops_perm. exact Hp. }
+    cbn [seq_loopO]. rewrite <- E, Hc. reflexivity.
 Qed.
 
 Lemma dstep_sound st o d d' : dstep st o d d' -> Permutation (flat d') (ev1 st o (flat d)).
@@ -877,6 +935,11 @@ Proof. apply dstep_dsteps_dloop_sound. Qed.
 Lemma dloop_sound n limit body d fuel k st res :
   dloop n limit body d fuel k st res ->
   forall xs, Permutation (flat d) xs -> res = seq_loop fuel k n limit st body xs.
+Proof. apply dstep_dsteps_dloop_sound. Qed.
+
+Lemma dloopO_sound outer n limit body d fuel k st res :
+  dloopO outer n limit body d fuel k st res ->
+  forall xs, Permutation (flat d) xs -> res = seq_loopO fuel k n limit outer st body xs.
 Proof. apply dstep_dsteps_dloop_sound. Qed.
 
 Lemma dloop_sound_replay n limit body d fuel k st res :
@@ -987,3 +1050,44 @@ Proof.
   - change [[(0, 13)]] with [ev1 0 OFoldSum [(0,6);(0,7)]].
     apply ds_fold_assoc. unfold gather. reflexivity.
 Qed.
+
+(** * [ONested] vs [ONestedO]: which state the body of the inner loop reads *)
+
+(** body reads the ENCLOSING state 5: every round adds (1+5)+(2+5) = 13 *)
+Example nestedO_reads_enclosing_state :
+  ev1 5 (ONestedO 2 1000 [OAddState]) [(0,1);(1,2)] = [(0, 26)].
+Proof. vm_compute. reflexivity. Qed.
+(** body reads the loop's OWN state (0, then 3): round 1 adds 1+2 = 3, round 2 adds (1+3)+(2+3) = 9 *)
+Example nested_reads_own_state :
+  ev1 5 (ONested 2 1000 [OAddState]) [(0,1);(1,2)] = [(0, 12)].
+Proof. vm_compute. reflexivity. Qed.
+(** inside a replay loop: the enclosing state is the replay's state (0 in round 1, 6 in round 2) *)
+Example nestedO_in_replay :
+  denote (PReplay (PSrc true [(0,1);(1,2)]) 2 1000 [ONestedO 2 1000 [OAddState]]) = [(0, 36)].
+Proof. vm_compute. reflexivity. Qed.
+Example nested_in_replay :
+  denote (PReplay (PSrc true [(0,1);(1,2)]) 2 1000 [ONested 2 1000 [OAddState]]) = [(0, 24)].
+Proof. vm_compute. reflexivity. Qed.
+
+(** non-vacuity of [ds_nestedO]: a two-partition run of the first example *)
+Example dstep_nestedO_example :
+  dstep 5 (ONestedO 2 1000 [OAddState]) [[(0,1)];[(1,2)]] [[(0, 26)]].
+Proof.
+  apply (ds_nestedO 5 2 1000 [OAddState] _ [[(1,2)];[(0,1)]]).
+  - unfold exchange, flat. cbn [concat app]. apply perm_swap.
+  - change (Z.to_nat (Z.max 2 1)) with 2%nat.
+    assert (Hs : dsteps 5 [OAddState] [[(1,2)];[(0,1)]] [[(1,7)];[(0,6)]]).
+    { eapply dss_cons; [apply ds_local; reflexivity | apply dss_nil]. }
+    eapply dlo_continue; [exact Hs | reflexivity |].
+    change 26 with (13 + zsum (map snd (flat [[(1,7)];[(0,6)]]))).
+    eapply dlo_last; [exact Hs | reflexivity].
+Qed.
+
+Print Assumptions ev1_perm.
+Print Assumptions dstep_sound.
+Print Assumptions dsteps_sound.
+Print Assumptions dloop_sound.
+Print Assumptions dloopO_sound.
+Print Assumptions dloop_sound_replay.
+Print Assumptions diter_sound.
+Print Assumptions dexec_sound.
